@@ -10,7 +10,12 @@ var vrfEntries = map[string]func(){"VrfC14Rotate": VrfC14Rotate}
 // VrfC14Rotate: cleaning Raft data keeps it recoverable as the newest of at
 // most N rotated backups; older ones shift by one; only the oldest is dropped.
 func VrfC14Rotate() {
-	keep := 1 + vrf_choice("keep_minus_1", vrf_param("max_keep"))
+	// retention: every value up to max_keep, and one two-digit value (folder names
+	// stop sorting numerically at .old.10)
+	keep := 1 + vrf_choice("keep_minus_1", vrf_param("max_keep")+1)
+	if keep > vrf_param("max_keep") {
+		keep = vrf_param("big_keep")
+	}
 	cleans := vrf_param("cleans")
 	base := vrfTempDir()
 	defer vrfCleanup(base)
@@ -37,9 +42,11 @@ func VrfC14Rotate() {
 			for i := 0; i < slots; i++ {
 				vrf_assert(vrfExists(name(i)) == exists[i], "C14.rotate.nothing-to-backup-unchanged")
 			}
-			continue
+			continue // (the comparison above is a term equality: no branching on the flags)
 		}
 		// expected state: k = contiguous backups from index 0, within the window
+		// (this loop follows the same existence facts as the code; nothing below
+		// branches on the folders beyond the first gap, whose existence stays arbitrary)
 		k := 0
 		for k < keep && exists[k] {
 			k++
@@ -57,37 +64,29 @@ func VrfC14Rotate() {
 		}
 		wantExists[0], wantIDs[0] = true, dataID
 		vrf_assert(!vrfExists(data), "C14.rotate.data-moved")
-		vrf_assert(vrfExists(name(0)) && vrfID(name(0)) == dataID, "C14.rotate.newest-is-data")
+		vrf_assert(vrf_and(vrfExists(name(0)), vrfID(name(0)) == dataID), "C14.rotate.newest-is-data")
+		after := make([]bool, slots)
+		afterID := make([]int, slots)
 		inWindow := 0
 		for i := 0; i < slots; i++ {
-			vrf_assert(vrfExists(name(i)) == wantExists[i], "C14.rotate.shift-by-one")
-			if wantExists[i] {
-				vrf_assert(vrfID(name(i)) == wantIDs[i], "C14.rotate.shift-by-one")
-			}
-			if i < keep && vrfExists(name(i)) {
-				inWindow++
+			after[i], afterID[i] = vrfExists(name(i)), vrfID(name(i))
+			vrf_assert(after[i] == wantExists[i], "C14.rotate.shift-by-one")
+			vrf_assert(vrf_implies(wantExists[i], afterID[i] == wantIDs[i]), "C14.rotate.shift-by-one")
+			if i < keep {
+				inWindow = vrf_ite_int(after[i], inWindow+1, inWindow)
 			}
 		}
 		vrf_assert(inWindow <= keep, "C14.rotate.at-most-keep")
 		// only the oldest of a full window may disappear
 		for i := 0; i < slots; i++ {
-			if !exists[i] {
-				continue
-			}
 			survived := false
 			for j := 0; j < slots; j++ {
-				if vrfExists(name(j)) && vrfID(name(j)) == ids[i] {
-					survived = true
-				}
+				survived = vrf_or(survived, vrf_and(after[j], afterID[j] == ids[i]))
 			}
-			vrf_assert(survived || (k >= keep && i == keep-1), "C14.rotate.only-oldest-dropped")
+			vrf_assert(vrf_implies(exists[i], vrf_or(survived, k >= keep && i == keep-1)), "C14.rotate.only-oldest-dropped")
 		}
-		for i := 0; i < slots; i++ {
-			exists[i] = vrfExists(name(i))
-			if exists[i] {
-				ids[i] = vrfID(name(i))
-			}
-		}
+		copy(exists, after)
+		copy(ids, afterID)
 	}
 	vrf_reach("C14.rotate.end")
 }
